@@ -2089,13 +2089,19 @@ impl IndentedDisplay for XmlElement {
             write!(f, ">")?;
 
             let mut has_element = false;
+            let mut tail = String::new();
             for child in self.children.borrow().as_slice() {
                 if child.as_element().is_some() {
                     has_element = true;
                     writeln!(f)?;
                 }
 
-                child.indented(indent + 4, f)?;
+                if child.as_text().is_some() {
+                    write!(f, "{}", print_child_after(&mut tail, child))?;
+                } else {
+                    tail.clear();
+                    child.indented(indent + 4, f)?;
+                }
             }
 
             if has_element {
@@ -2108,6 +2114,28 @@ impl IndentedDisplay for XmlElement {
             }
             write!(f, "{}>", self.local_name.as_str())
         }
+    }
+}
+
+/// Prints a child of an element. Text items that follow each other (they never do in a parsed document, but a text node
+/// can be split, moved or appended) must not join into `]]>`: the `>` that would complete it is written as `&gt;`.
+/// `tail` is the text written by the text items immediately before.
+fn print_child_after(tail: &mut String, child: &XmlItem) -> String {
+    if let Some(text) = child.as_text() {
+        let text = text.borrow();
+        let s = text.text.as_str();
+        let joins = (tail.ends_with("]]") && s.starts_with('>'))
+            || (tail.ends_with(']') && s.starts_with("]>"));
+        let printed = if joins {
+            s.replacen('>', "&gt;", 1)
+        } else {
+            s.to_string()
+        };
+        tail.push_str(s);
+        printed
+    } else {
+        tail.clear();
+        child.to_string()
     }
 }
 
@@ -2320,8 +2348,9 @@ impl fmt::Display for XmlElement {
         } else {
             write!(f, ">")?;
 
+            let mut tail = String::new();
             for child in self.children.borrow().as_slice() {
-                child.fmt(f)?;
+                write!(f, "{}", print_child_after(&mut tail, child))?;
             }
 
             write!(f, "</")?;
